@@ -45,6 +45,23 @@ Proof.
   - repeat split; intros ->; discriminate.
 Qed.
 
+(* get: the same, and with a default the not-found error is impossible too *)
+Theorem get_exceptions (src : @source json) (p : list (vertex hp)) (dflt : @default) (tr : @tracecfg json) e :
+  src_wf src -> valid_path hp p = true ->
+  fst (@get json jshape (fun d => d) B H depth src p dflt tr) = Exn e ->
+  (dflt = DNotSet /\ e = not_found src) \/ (exists c, e = ETraversing c) \/ budget_exn e = true.
+Proof.
+  intros Hsrc Hv Hr. unfold get in Hr.
+  set (must := match dflt with DNotSet => true | _ => false end) in *.
+  pose proof (get_match_exceptions src p must tr) as Hg.
+  pose proof (get_match_must B H depth src p tr) as Hmust.
+  destruct (get_match src p must tr) as [[[m|]|e0] es] eqn:E; cbn [fst] in *.
+  - discriminate.
+  - destruct dflt; try discriminate. subst must. exfalso. exact (Hmust _ _ E eq_refl).
+  - injection Hr as <-. destruct (Hg e0 Hsrc Hv eq_refl) as [(Hm & ->) | [Ht | Hb]]; auto.
+    left. split; [|reflexivity]. destruct dflt; [reflexivity | discriminate Hm | discriminate Hm].
+Qed.
+
 End Taxonomy.
 
 (* ------------------------------------------------------------------ assignment *)
